@@ -26,23 +26,23 @@ typedef struct { const char *name; void (*run)(Ctx *c); int uses_shared; } OpDef
 static void dg(Ctx *c, const void *p, size_t n) { c->digest = fnv1a(p, n, c->digest); }
 static void dgi(Ctx *c, int v) { c->digest = fnv1a(&v, sizeof(v), c->digest); }
 
-static void op_s128_block(Ctx *c) { dgi(c, skinny128_set_key(&c->k128, c->key, 32)); skinny128_ecb_encrypt(c->out, c->in, &c->k128); skinny128_ecb_decrypt(c->out + 16, c->in + 16, &c->k128); dg(c, c->out, 32); }
-static void op_s64_block(Ctx *c) { dgi(c, skinny64_set_key(&c->k64, c->key, 24)); skinny64_ecb_encrypt(c->out, c->in, &c->k64); skinny64_ecb_decrypt(c->out + 8, c->in + 8, &c->k64); dg(c, c->out, 16); }
+static void op_s128_block(Ctx *c) { dgi(c, skinny128_set_key(&c->k128, c->key, 37)); skinny128_ecb_encrypt(c->out + 32, c->in, &c->k128); dg(c, c->out + 32, 16); dgi(c, skinny128_set_key(&c->k128, c->key, 32)); skinny128_ecb_encrypt(c->out, c->in, &c->k128); skinny128_ecb_decrypt(c->out + 16, c->in + 16, &c->k128); dg(c, c->out, 32); }
+static void op_s64_block(Ctx *c) { dgi(c, skinny64_set_key(&c->k64, c->key, 19)); skinny64_ecb_encrypt(c->out + 16, c->in, &c->k64); dg(c, c->out + 16, 8); dgi(c, skinny64_set_key(&c->k64, c->key, 11)); skinny64_ecb_decrypt(c->out + 24, c->in, &c->k64); dg(c, c->out + 24, 8); dgi(c, skinny64_set_key(&c->k64, c->key, 24)); skinny64_ecb_encrypt(c->out, c->in, &c->k64); skinny64_ecb_decrypt(c->out + 8, c->in + 8, &c->k64); dg(c, c->out, 16); }
 static void op_mantis_block(Ctx *c) { dgi(c, mantis_set_key(&c->km, c->key, 16, 7, MANTIS_ENCRYPT)); dgi(c, mantis_set_tweak(&c->km, c->tweak, 8)); mantis_ecb_crypt(c->out, c->in, &c->km);
     mantis_swap_modes(&c->km); mantis_ecb_crypt(c->out + 8, c->in + 8, &c->km); mantis_ecb_crypt_tweaked(c->out + 16, c->in, c->tw, &c->km); dg(c, c->out, 24); }
-static void op_s128_tweaked(Ctx *c) { dgi(c, skinny128_set_tweaked_key(&c->t128, c->key, 32)); dgi(c, skinny128_set_tweak(&c->t128, c->tweak, 16)); dgi(c, skinny128_set_tweak(&c->t128, c->tweak + 1, 7));
+static void op_s128_tweaked(Ctx *c) { dgi(c, skinny128_set_tweaked_key(&c->t128, c->key, 21)); skinny128_ecb_encrypt(c->out + 16, c->in, &c->t128.ks); dg(c, c->out + 16, 16); dgi(c, skinny128_set_tweaked_key(&c->t128, c->key, 32)); dgi(c, skinny128_set_tweak(&c->t128, c->tweak, 16)); dgi(c, skinny128_set_tweak(&c->t128, c->tweak + 1, 7));
     skinny128_ecb_encrypt(c->out, c->in, &c->t128.ks); dg(c, c->out, 16); }
-static void op_s64_tweaked(Ctx *c) { dgi(c, skinny64_set_tweaked_key(&c->t64, c->key, 16)); dgi(c, skinny64_set_tweak(&c->t64, c->tweak, 8)); skinny64_ecb_encrypt(c->out, c->in, &c->t64.ks); dg(c, c->out, 8); }
+static void op_s64_tweaked(Ctx *c) { dgi(c, skinny64_set_tweaked_key(&c->t64, c->key, 13)); skinny64_ecb_encrypt(c->out + 8, c->in, &c->t64.ks); dg(c, c->out + 8, 8); dgi(c, skinny64_set_tweaked_key(&c->t64, c->key, 16)); dgi(c, skinny64_set_tweak(&c->t64, c->tweak, 8)); skinny64_ecb_encrypt(c->out, c->in, &c->t64.ks); dg(c, c->out, 8); }
 static void op_s128_ctr(Ctx *c) { dgi(c, skinny128_ctr_init(&c->c128)); dgi(c, skinny128_ctr_set_tweaked_key(&c->c128, c->key, 32)); dgi(c, skinny128_ctr_set_tweak(&c->c128, c->tweak, 16));
     dgi(c, skinny128_ctr_set_counter(&c->c128, c->counter, 16)); dgi(c, skinny128_ctr_encrypt(c->out, c->in, 150, &c->c128)); dgi(c, skinny128_ctr_set_key(&c->c128, c->key, 16));
     dgi(c, skinny128_ctr_encrypt(c->out + 150, c->in + 150, 131, &c->c128)); skinny128_ctr_cleanup(&c->c128); dg(c, c->out, 281); }
-static void op_s64_ctr(Ctx *c) { dgi(c, skinny64_ctr_init(&c->c64)); dgi(c, skinny64_ctr_set_key(&c->c64, c->key, 24)); dgi(c, skinny64_ctr_set_counter(&c->c64, c->counter, 5));
+static void op_s64_ctr(Ctx *c) { dgi(c, skinny64_ctr_init(&c->c64)); dgi(c, skinny64_ctr_set_key(&c->c64, c->key, 21)); dgi(c, skinny64_ctr_set_counter(&c->c64, c->counter, 5));
     dgi(c, skinny64_ctr_encrypt(c->out, c->in, 77, &c->c64)); dgi(c, skinny64_ctr_encrypt(c->out + 77, c->in + 77, 70, &c->c64)); skinny64_ctr_cleanup(&c->c64); dg(c, c->out, 147); }
 static void op_mantis_ctr(Ctx *c) { dgi(c, mantis_ctr_init(&c->cm)); dgi(c, mantis_ctr_set_key(&c->cm, c->key, 16, 6)); dgi(c, mantis_ctr_set_tweak(&c->cm, c->tweak, 8));
     dgi(c, mantis_ctr_set_counter(&c->cm, c->counter, 8)); dgi(c, mantis_ctr_encrypt(c->out, c->in, 99, &c->cm)); mantis_ctr_cleanup(&c->cm); dg(c, c->out, 99); }
-static void op_s128_par(Ctx *c) { dgi(c, skinny128_parallel_ecb_init(&c->p128)); dgi(c, (int)c->p128.parallel_size); dgi(c, skinny128_parallel_ecb_set_key(&c->p128, c->key, 48));
+static void op_s128_par(Ctx *c) { dgi(c, skinny128_parallel_ecb_init(&c->p128)); dgi(c, (int)c->p128.parallel_size); dgi(c, skinny128_parallel_ecb_set_key(&c->p128, c->key, 43));
     dgi(c, skinny128_parallel_ecb_encrypt(c->out, c->in, 16 * 19, &c->p128)); dgi(c, skinny128_parallel_ecb_decrypt(c->out + 304, c->in, 16 * 9, &c->p128)); skinny128_parallel_ecb_cleanup(&c->p128); dg(c, c->out, 448); }
-static void op_s64_par(Ctx *c) { dgi(c, skinny64_parallel_ecb_init(&c->p64)); dgi(c, skinny64_parallel_ecb_set_key(&c->p64, c->key, 16));
+static void op_s64_par(Ctx *c) { dgi(c, skinny64_parallel_ecb_init(&c->p64)); dgi(c, skinny64_parallel_ecb_set_key(&c->p64, c->key, 10));
     dgi(c, skinny64_parallel_ecb_encrypt(c->out, c->in, 8 * 19, &c->p64)); dgi(c, skinny64_parallel_ecb_decrypt(c->out + 152, c->in, 8 * 9, &c->p64)); skinny64_parallel_ecb_cleanup(&c->p64); dg(c, c->out, 224); }
 static void op_mantis_par(Ctx *c) { dgi(c, mantis_parallel_ecb_init(&c->pm)); dgi(c, mantis_parallel_ecb_set_key(&c->pm, c->key, 16, 8, MANTIS_DECRYPT)); mantis_parallel_ecb_swap_modes(&c->pm);
     dgi(c, mantis_parallel_ecb_crypt(c->out, c->in, c->tw, 8 * 19, &c->pm)); mantis_parallel_ecb_cleanup(&c->pm); dg(c, c->out, 152); }
